@@ -1,4 +1,5 @@
 import Proofs.Lemmas.Scan
+import Proofs.Lemmas.ScanMem
 /-!
 # C12 — cumulative products equal the sequential left/right fold, for every length
 
@@ -116,3 +117,206 @@ example : (List.range 5).map (cumopsLeft (α := List Nat) (· ++ ·) 5 (fun j =>
 example : strides 5 = [1, 2, 4] ∧ strides 8 = [1, 2, 4] ∧ strides 9 = [1, 2, 4, 8] ∧ strides 1 = [] := by decide
 
 end PP.Scan
+
+
+/-! ## Storage level: in-place variants overwrite exactly their view, out-of-place ones leave the
+input storage untouched (model `Pose/Model/ScanMem.lean`) -/
+namespace PP.ScanMem
+open PP.Scan
+variable {α : Type} (op : α → α → α)
+
+/-- **In place, any view.** After `cumops_` on a non-overlapping view (any base, any strides —
+transposed, stepped, a window of a larger buffer), element `j` of every fibre `f` holds the ordered
+product of that fibre's first `j+1` *original* elements. Every length, every number of fibres. -/
+theorem scanMem_spec (hassoc : ∀ a b c : α, op (op a b) c = op a (op b c))
+    (w : View) (hw : w.NonOverlap) (m : Nat → α) (f j : Nat) (hf : f < w.F) (hj : j < w.L) :
+    scanMem op w m (w.addr f j) = seg op (fun j' => m (w.addr f j')) 0 j := by
+  unfold scanMem
+  rw [foldl_stepMem_read op w hw _ m f j hf hj]
+  exact cumops_spec op hassoc w.L _ j hj
+
+/-- left order through a view -/
+theorem scanMem_spec_left (hassoc : ∀ a b c : α, op (op a b) c = op a (op b c))
+    (w : View) (hw : w.NonOverlap) (m : Nat → α) (f j : Nat) (hf : f < w.F) (hj : j < w.L) :
+    scanMem (fun a b => op b a) w m (w.addr f j) = segLeft op (fun j' => m (w.addr f j')) j := by
+  rw [scanMem_spec (fun a b => op b a) (by intro a b c; exact (hassoc c b a).symm) w hw m f j hf hj]
+  exact seg_flip op _ j
+
+/-- **Frame.** Storage that is not an element of the view is never written — the rest of the buffer
+a view was cut from, and every other tensor, keeps its contents. -/
+theorem scanMem_frame (w : View) (m : Nat → α) (a : Nat)
+    (ha : ∀ f j, f < w.F → j < w.L → w.addr f j ≠ a) : scanMem op w m a = m a := by
+  unfold scanMem
+  exact foldl_stepMem_frame op w _ a ha m
+
+/-- **Out of place leaves the input untouched**: every address allocated before the call (`< top`)
+keeps its contents — whatever the view, overlapping (expanded) ones included. -/
+theorem scanOut_input_untouched (w : View) (top : Nat) (m : Nat → α) (a : Nat) (ha : a < top) :
+    scanOut op w top m a = m a := by
+  unfold scanOut
+  rw [scanMem_frame, copyTo_below w top m a ha]
+  intro f j _ _
+  simp only [cloneView]
+  omega
+
+/-- **Out of place returns the fold** in a fresh contiguous tensor. No non-overlap requirement on
+the input view: reading an expanded tensor is legal. -/
+theorem scanOut_spec (hassoc : ∀ a b c : α, op (op a b) c = op a (op b c))
+    (w : View) (top : Nat) (m : Nat → α) (f j : Nat) (hf : f < w.F) (hj : j < w.L) :
+    scanOut op w top m (top + f * w.L + j) = seg op (fun j' => m (w.addr f j')) 0 j := by
+  unfold scanOut
+  have h := scanMem_spec op hassoc (cloneView w top) (clone_nonOverlap w top) (copyTo w top m) f j hf hj
+  simp only [cloneView] at h ⊢
+  rw [h]
+  apply seg_congr
+  intro k hk
+  simp only [Nat.zero_add]
+  exact copyTo_clone w top m f k hf (by omega)
+
+/-- **In place and out of place agree**: reading the view after `cumops_` gives the tensor `cumops`
+returns. -/
+theorem inplace_eq_outofplace (hassoc : ∀ a b c : α, op (op a b) c = op a (op b c))
+    (w : View) (hw : w.NonOverlap) (top : Nat) (m : Nat → α) (f j : Nat) (hf : f < w.F) (hj : j < w.L) :
+    scanMem op w m (w.addr f j) = scanOut op w top m (top + f * w.L + j) := by
+  rw [scanMem_spec op hassoc w hw m f j hf hj, scanOut_spec op hassoc w top m f j hf hj]
+
+/-- the executable overlap test decides `NonOverlap` -/
+theorem nonOverlapB_iff (w : View) : w.nonOverlapB = true ↔ w.NonOverlap := by
+  unfold View.nonOverlapB View.NonOverlap
+  simp only [List.all_eq_true, Bool.or_eq_true, bne_iff_ne, ne_eq, beq_iff_eq]
+  constructor
+  · intro h f j f' j' hf hj hf' hj' he
+    have := h (f, j) ((mem_pairs w f j).2 ⟨hf, hj⟩) (f', j') ((mem_pairs w f' j').2 ⟨hf', hj'⟩)
+    rcases this with h1 | h1
+    · exact absurd he h1
+    · simpa using h1
+  · rintro h ⟨f, j⟩ hp ⟨f', j'⟩ hq
+    rw [mem_pairs] at hp hq
+    by_cases he : w.addr f j = w.addr f' j'
+    · right
+      obtain ⟨rfl, rfl⟩ := h f j f' j' hp.1 hp.2 hq.1 hq.2 he
+      rfl
+    · left; exact he
+
+theorem invTable_fold_size (w : View) (n : Nat) (l : List (Nat × Nat)) :
+    (List.foldr (fun p t => t.setIfInBounds (w.addr p.1 p.2) (some p)) (Array.replicate n none) l).size = n := by
+  induction l with
+  | nil => simp
+  | cons q l ih => simp [ih]
+
+/-- the inverse-address table used by the executable variant is `find` -/
+theorem invTable_eq_find (w : View) (n a : Nat) (ha : a < n) :
+    (invTable w n).getD a none = w.find a := by
+  unfold invTable View.find
+  generalize w.pairs = l
+  induction l with
+  | nil => simp [ha]
+  | cons p l ih =>
+    simp only [List.foldr_cons, List.find?_cons]
+    by_cases hp : w.addr p.1 p.2 = a
+    · subst hp
+      have hs := invTable_fold_size w n l
+      simp [Array.getD_eq_getD_getElem?, hs, ha]
+    · have : (w.addr p.1 p.2 == a) = false := by simpa using hp
+      rw [this]
+      rw [← ih]
+      simp [Array.getD_eq_getD_getElem?, Array.getElem?_setIfInBounds_ne hp]
+
+/-- The executable finite-buffer variant run by the driver computes `scanMem` (for views that lie
+inside the buffer). -/
+theorem scanBuf_eq [Inhabited α] (w : View) (buf : Array α)
+    (hin : ∀ f j, f < w.F → j < w.L → w.addr f j < buf.size) (a : Nat) :
+    (scanBuf op w buf).getD a default = scanMem op w (fun a => buf.getD a default) a := by
+  unfold scanBuf scanMem
+  generalize hn : buf.size = n at hin
+  have key : ∀ (l : List Nat) (b : Array α) (m : Nat → α), b.size = n → (∀ a, m a = b.getD a default) →
+      ∀ a, (l.foldl (fun b i => stepBuf op w (invTable w n) i b) b).getD a default
+        = l.foldl (fun m i => stepMem op w i m) m a := by
+    intro l
+    induction l with
+    | nil => intro b m _ h a; simpa using (h a).symm
+    | cons i l ih =>
+      intro b m hs h a
+      simp only [List.foldl_cons]
+      apply ih _ _ (by simp [stepBuf, hs])
+      intro a
+      unfold stepMem stepBuf
+      by_cases ha : a < n
+      · rw [ofFn_getD _ _ a (by omega)]
+        simp only []
+        rw [invTable_eq_find w n a ha]
+        cases hfd : w.find a with
+        | none => simp [h a]
+        | some p =>
+          obtain ⟨f, j⟩ := p
+          simp only []
+          by_cases hij : i ≤ j
+          · simp only [hij, if_true, h]
+          · simp only [hij, if_false, h]
+      · have hnone : w.find a = none := by
+          apply find_none
+          intro f j hf hj he
+          have := hin f j hf hj
+          omega
+        rw [hnone]
+        simp only []
+        rw [h a]
+        simp [Array.getD_eq_getD_getElem?, hs, ha]
+  exact key (strides w.L) buf _ hn (fun _ => rfl) a
+
+/-- The executable out-of-place variant computes `scanOut` with the clone placed right after the
+existing storage. -/
+theorem scanOutBuf_eq [Inhabited α] (w : View) (buf : Array α) (a : Nat) :
+    (scanOutBuf op w buf).getD a default = scanOut op w buf.size (fun a => buf.getD a default) a := by
+  unfold scanOutBuf scanOut
+  have hL : ∀ f j, f < w.F → j < w.L → f * w.L + j < w.F * w.L := by
+    intro f j hf hj
+    calc f * w.L + j < f * w.L + w.L := by omega
+      _ = (f + 1) * w.L := by rw [Nat.add_mul, Nat.one_mul]
+      _ ≤ w.F * w.L := Nat.mul_le_mul_right _ hf
+  rw [scanBuf_eq]
+  · congr 1
+    funext a
+    by_cases h1 : a < buf.size
+    · rw [copyTo_below w buf.size _ a h1]
+      simp [Array.getD_eq_getD_getElem?, Array.getElem?_append, h1]
+    · by_cases h2 : a < buf.size + w.F * w.L
+      · have hLpos : 0 < w.L := by
+          rcases Nat.eq_zero_or_pos w.L with h0 | h0
+          · rw [h0] at h2; omega
+          · exact h0
+        have hf : (a - buf.size) / w.L < w.F := by
+          rw [Nat.div_lt_iff_lt_mul hLpos]; omega
+        have hj : (a - buf.size) % w.L < w.L := Nat.mod_lt _ hLpos
+        have ha : a = (cloneView w buf.size).addr ((a - buf.size) / w.L) ((a - buf.size) % w.L) := by
+          simp only [cloneView]
+          have := Nat.div_add_mod' (a - buf.size) w.L
+          omega
+        have hc := copyTo_clone w buf.size (fun a => buf.getD a default) _ _ hf hj
+        rw [← ha] at hc
+        rw [hc, Array.getD_eq_getD_getElem?, Array.getElem?_append_right (by omega)]
+        simp [Array.getD_eq_getD_getElem?, show a - buf.size < w.F * w.L by omega]
+      · have : copyTo w buf.size (fun a => buf.getD a default) a = buf.getD a default := by
+          unfold copyTo
+          rw [find_none]
+          intro f j hf hj
+          simp only [cloneView]
+          have := hL f j hf hj
+          omega
+        rw [this]
+        simp [Array.getD_eq_getD_getElem?, Array.getElem?_append, h1, h2, show ¬ a - buf.size < w.F * w.L by omega]
+  · intro f j hf hj
+    simp only [cloneView, Array.size_append, Array.size_ofFn] at hf hj ⊢
+    have := hL f j hf hj
+    omega
+
+/-! ### non-vacuity: a transposed 2×3 window (fibres along the slow axis) of a 10-cell buffer,
+non-commutative operation (list append) -/
+def exView : View := ⟨3, 2, fun f j => 1 + f + 4 * j⟩
+example : exView.nonOverlapB = true := by decide
+example : (List.range 10).map (scanMem (α := List Nat) (· ++ ·) exView (fun a => [a])) =
+    [[0], [1], [2], [3], [4], [1,5], [2,6], [3,7], [8], [9]] := by decide
+example : (scanBuf (α := List Nat) (· ++ ·) exView ((List.range 10).map fun a => [a]).toArray).toList =
+    [[0], [1], [2], [3], [4], [1,5], [2,6], [3,7], [8], [9]] := by decide
+
+end PP.ScanMem
